@@ -97,6 +97,12 @@ S10 = '''## 10. Changes to the machinery (log)
   `ensures` to a closure while keeping its body verbatim (Verus checks the ensures against the body).
 * **Optional rules** (`{'optional': True}`) and the structural `is-some-and` / `letchain-nest` rules make units tolerant
   to harmless rewrites; a construct no rule covers still yields *undecided*.
+* **False-alarm probes with harmless edits** (run on a scratch worktree, never committed): renaming the locals of
+  `LineIndex::get_offset` and reversing the four independent `remove` statements of `DiagnosticIndex::remove` gives *undecided*
+  (a proof anchor quotes a renamed local) resp. OK, never a VIOLATION; the semantically equivalent rewrites `if end < start`
+  for `if start > end` in `to_rowan_range`, re-ordered and operand-swapped match arms in `DiagnosticAction::is_match`, and
+  `match .. { Some(d) => d.contains(code), None => false }` for the `if let .. else` of `is_file_disabled` all verify
+  unchanged (C20, C22, C25 OK) — the contracts speak about the abstraction, the anchors about statement shapes.
 * **Undecided is never an alarm, but a replayed refutation is always sound**: when a property's units are undecided the
   check runs the property's bounded witness search on the real code (`replay/c01`, `replay/c22`); a hit is reported as a
   VIOLATION with the concrete input, otherwise the check stays undecided (exit 2). The search decides nothing else.
